@@ -3,7 +3,7 @@
    the extracted inductives; no Extract Constant. *)
 Require Extraction.
 From Coq Require Import ExtrOcamlBasic.
-From Adept Require Import Scalar GapList Tape Jacobian Buffers View Engines Interp Storage Assign.
+From Adept Require Import Scalar GapList Tape Jacobian Buffers View Engines Interp Storage Assign VecSplit.
 From AdeptGen Require Import Gen_Engines.
 Extraction "model.ml"
   GapList.init GapList.register1 GapList.registerN GapList.unregisterN GapList.new_recording GapList.step GapList.run
@@ -17,4 +17,5 @@ Extraction "model.ml"
   Interp.interp1 Interp.interp2d Interp.interp3d Interp.decode
   Storage.sstep Storage.sinit Storage.read_cells Storage.get_arr Storage.get_sto
   Assign.assign Assign.assign_op Assign.assign_where Assign.fill Assign.eval Assign.reduce_all Assign.indices Assign.assign_spec
-  Jacobian.apply_writes Jacobian.omp_blocks Jacobian.J_fwd Jacobian.J_rev.
+  Jacobian.apply_writes Jacobian.omp_blocks Jacobian.J_fwd Jacobian.J_rev
+  VecSplit.stmt_counts VecSplit.reduce_counts VecSplit.align_off.
